@@ -217,3 +217,12 @@ Qed.
 Lemma f24_repaired : exists t, fill_order true 3 f24_data f24_order (init f24_root) = Done true t /\
                                spec_okb f24_data f24_order t = true.
 Proof. eexists. split; vm_compute; reflexivity. Qed.
+
+Lemma ex_builds0 : exists t, fill_order true 6 ex_data ex_order (init ex_root) = Done true t.
+Proof. eexists. vm_compute. reflexivity. Qed.
+
+Lemma struct_okb_sound_final : forall data ins t,
+  struct_okb data ins t = true -> spec data ins (recom data ins t) /\ cum_consistent t = true.
+Proof.
+  intros data ins t H. split; [apply struct_okb_sound_gen | apply (struct_okb_cum_consistent data ins)]; exact H.
+Qed.
